@@ -179,7 +179,7 @@ def run(tier):
         g = dict(DEPTH=depth, EXCUSE=excuse)
         tw = chrun.run(__name__, "h_rt", [(0, 0)], timeout=60, globs=dict(g, TWIN=True), pool=pool)
         chrun.record(ck, tw, "round trip reachability twin", expect="refuted")
-        shards = [(a, b) for a in range(len(pos)) for b in range(6)]
+        shards = [(a, b) for a in range(len(pos)) for b in range(len(G.base_types()))]
         res = chrun.run(__name__, "h_rt", shards, timeout=(200 if tier == "quick" else 2400), globs=g, pool=pool)
         chrun.record(ck, res, "format_decl / format round trip of every legal tree in every position", bound=f"depth <= {depth}, {len(pos)} positions")
     finally:
